@@ -14,7 +14,7 @@ META = {
     "engine": "E2 virtual time (trio MockClock, timestamping recording pools)",
     "rule": (
         "seeded random runs of LinearController, RelativeSupplyController, Stepwise, DemandSwitch, Buffer and "
-        "FactoryPool services: dyadic intervals/windows 0.25..64, start times that are and are not multiples of "
+        "FactoryPool services: dyadic intervals/windows 0.25..64 (15 % of the controller runs use intervals such as 0.1, 0.3, 1/3, 1.1 instead; there only the number and approximate times of the steps are judged), start times that are and are not multiples of "
         "the interval, run lengths 0.5..300 intervals plus a few long runs (2500 intervals in the quick, 10^4 in the thorough tier), 0-60 timed environment "
         "actions (pool state changes, demand writes through the Buffer, outside changes of the Buffer's target, "
         "demand writes to the FactoryPool) placed strictly between period boundaries or exactly on them. "
@@ -49,7 +49,13 @@ def gen_case(rnd, spec):
         periods = 10000.5
     elif not spec.get("long") and spec.get("case_index") in (0, 1):
         periods = 2500.5  # one or two long runs per service kind also in the quick tier
-    n_actions = rnd.randint(0, 60) if periods > 3 else rnd.randint(0, 6)
+    fractional = kind in ("linear", "relative", "stepwise", "switch") and rnd.random() < 0.15
+    if fractional:
+        # intervals without an exact binary representation: the step times are compared with a tolerance, nothing else is
+        interval = rnd.choice([0.1, 0.3, 0.7, 1.1, 1 / 3, 2.2])
+        start = rnd.choice([0, 0, 1000, 1234.5, 0.1, 86400.7])
+        periods = rnd.choice([1.5, 3.5, 7.5, 12.5, 40.5, 100.5])
+    n_actions = 0 if fractional else rnd.randint(0, 60) if periods > 3 else rnd.randint(0, 6)
     actions = []
     for _ in range(n_actions):
         k = rnd.randint(0, int(periods))
@@ -75,7 +81,7 @@ def gen_case(rnd, spec):
         params = {"prestart": rnd.choice([None, None, ["write", rnd.randint(0, 50)], ["outside", rnd.randint(0, 50)]])}
     elif kind == "switch":
         params = {"slave_interval": rnd.choice([1, 7, 0.5, 10]), "start_demand": rnd.choice([10, 20, 40])}
-    return {"kind": kind, "interval": interval, "start": start, "periods": periods, "actions": actions, "params": params,
+    return {"kind": kind, "interval": interval, "start": start, "periods": periods, "actions": actions, "params": params, "fractional": fractional,
             "default_interval": kind not in ("buffer", "factory") and interval == 1 and rnd.random() < 0.5}
 
 
@@ -222,6 +228,13 @@ def execute(case, result):
                 times = sorted(times + [e[3] for e in pool.log if e[0] == "r" and e[1] == "utilisation"])
             if any(itv != interval for _, itv in steps):
                 bad("steps performed with interval %r" % sorted({itv for _, itv in steps}))
+        if case.get("fractional"):
+            result.count("runs_with_intervals_that_are_not_dyadic")
+            close = len(times) == len(expected_steps) and all(abs(t - e) <= 1e-9 * max(1.0, abs(e)) for t, e in zip(times, expected_steps))
+            if not close:
+                bad("steps at %r..., expected one per interval at about %r... (%d vs %d steps)" % (times[:6], expected_steps[:6], len(times), len(expected_steps)))
+            result.count("steps_checked", len(times))
+            return problems
         if times != expected_steps:
             bad("steps at %r..., expected one at start + k*interval: %r... (%d vs %d steps)"
                 % (times[:6], expected_steps[:6], len(times), len(expected_steps)))
@@ -351,7 +364,7 @@ def finish(total, tier):
     need = ["%s_runs" % k for k in KINDS] + ["steps_checked", "linear_pairs_checked", "buffer_target_writes",
                                               "buffer_boundaries_checked", "factory_adjustments_checked", "factory_children_spawned",
                                               "factory_needed_adjustments_observed", "switch_slave_steps_checked", "stepwise_step_effects_checked",
-                                              "buffer_runs_with_pending_value_at_start"]
+                                              "buffer_runs_with_pending_value_at_start", "runs_with_intervals_that_are_not_dyadic"]
     for name in need:
         if not total.counters.get(name) and not total.violations:
             total.inconc("monitor never observed: " + name)
